@@ -84,8 +84,9 @@ def parseEvA (s : String) : Option ObsA :=
   | ["G", j, st] => do pure ⟨.grant (← j.toNat?), none, some (← parseNats st)⟩
   | ["E", j, ok] => do pure ⟨.bodyEnd (← j.toNat?) (ok = "1"), none, none⟩
   | ["A", j] => do pure ⟨.cancelAck (← j.toNat?), none, none⟩
-  | ["W", s, lv, K, D, st] => do
-    pure ⟨.waitReturn (← s.toNat?) (lv = "1") (← parseNats K), some (← parseNats D), some (← parseNats st)⟩
+  | ["W", s, D] => do pure ⟨.waitReturn (← s.toNat?), some (← parseNats D), none⟩
+  | ["R", s, lv, K, st] => do
+    pure ⟨.react (← s.toNat?) (lv = "1") (← parseNats K), none, some (← parseNats st)⟩
   | ["L", s, K] => do pure ⟨.leave (← s.toNat?) (← parseNats K), none, some []⟩
   | ["F", s, r] => do pure ⟨.finish (← s.toNat?) (← parseRes r), none, none⟩
   | ["T", d] => do pure ⟨.tick (← d.toNat?), none, none⟩
@@ -96,12 +97,13 @@ def whyRejectA (c : Cfg) (st : StA) : EvA → String
   | .grant j => s!"grant {j}: ph={repr (st.ph j)} creq={st.creq j} slotFree={slotFree c st (c.parent j)} q={st.qcount (c.parent j)}"
   | .bodyEnd j _ => s!"bodyEnd {j}: ph={repr (st.ph j)} creq={st.creq j}"
   | .cancelAck j => s!"cancelAck {j}: ph={repr (st.ph j)} creq={st.creq j}"
-  | .waitReturn s _ K => s!"waitReturn {s}: pc={repr (st.pc s)} D={doneSet c st s} K={K}"
+  | .waitReturn s => s!"waitReturn {s}: pc={repr (st.pc s)} D={doneSet c st s} rx={st.rx s}"
+  | .react s lv K => s!"react {s}: pc={repr (st.pc s)} rx={st.rx s} leave={lv} K={K}"
   | .leave s K => s!"leave {s}: pc={repr (st.pc s)} K={K}"
   | .finish s _ => s!"finish {s}: pc={repr (st.pc s)} ph={repr (st.ph s)}"
   | .tick _ =>
     let g := (List.range c.n).filter fun j => 0 < j && st.ph j == .queued && !st.creq j && slotFree c st (c.parent j)
-    let w := (List.range c.n).filter fun s => c.isSched s && st.pc s == .loop && !(doneSet c st s).isEmpty
+    let w := (List.range c.n).filter fun s => c.isSched s && st.pc s == .loop && (!(doneSet c st s).isEmpty || (st.rx s).isSome)
     s!"tick: grantable={g} waitable={w}"
   | .runBegin => "runBegin"
 
@@ -111,7 +113,7 @@ def replayA (c : Cfg) (evs : List ObsA) : String := Id.run do
   for o in evs do
     -- A1: the done set handed over is exactly the finished, not yet reported jobs
     match o.ev, o.done with
-    | .waitReturn s _ _, some D =>
+    | .waitReturn s, some D =>
       if !sameSet D (doneSet c st s) then
         return s!"reject {i} env:A1 wait-return of {s} observed={showNats D} model={showNats (doneSet c st s)}"
     | _, _ => pure ()
@@ -129,6 +131,128 @@ def replayA (c : Cfg) (evs : List ObsA) : String := Id.run do
     i := i + 1
   return s!"ok {i}"
 
+/-! ### layer B -/
+open AJ.Full
+
+/-- a translated event of layer B with the reactions observed on the implementation -/
+structure ObsB where
+  ev  : EvB
+  /-- observed fields: D (done set), S (started), K (cancel() calls), H (handler tasks created),
+      HC (handler tasks cancelled), R (result of a run that ends: job id + token), V (value of co_shutdown) -/
+  obs : List (String × String)
+
+def parseEvB (s : String) : Option ObsB := do
+  let parts := s.splitOn "~"
+  let head ← parts.head?
+  let obs := kvOf parts.tail
+  let ev ← match head.splitOn "_" with
+    | ["B"] => some EvB.runBegin
+    | ["G", j] => do pure (.grant (← j.toNat?))
+    | ["E", j, ok] => do pure (.bodyEnd (← j.toNat?) (ok = "1"))
+    | ["A", j] => do pure (.cancelAck (← j.toNat?))
+    | ["CA", s] => do pure (.cancelArrive (← s.toNat?))
+    | ["W", s] => do pure (.waitReturn (← s.toNat?))
+    | ["R", s] => do pure (.react (← s.toNat?))
+    | ["TF", s] => do pure (.timeoutFire (← s.toNat?))
+    | ["TR", s, p] => do pure (.tidyReturn (← s.toNat?) (← p.toNat?))
+    | ["HS", j] => do pure (.hStep (← j.toNat?))
+    | ["HE", j] => do pure (.hEnd (← j.toNat?))
+    | ["HA", j] => do pure (.hCancelAck (← j.toNat?))
+    | ["HX", s] => do pure (.hCancelArrive (← s.toNat?))
+    | ["SW", s, p] => do pure (.sdWaitReturn (← s.toNat?) (← p.toNat?))
+    | ["ST", s] => do pure (.sdTimeoutFire (← s.toNat?))
+    | ["SY", s, p] => do pure (.sdTidyReturn (← s.toNat?) (← p.toNat?))
+    | ["T", d] => do pure (.tick (← d.toNat?))
+    | _ => none
+  pure ⟨ev, obs⟩
+
+def evSched : EvB → Nat
+  | .cancelArrive s | .waitReturn s | .react s | .timeoutFire s | .tidyReturn s _ | .hStep s
+  | .hCancelArrive s | .sdWaitReturn s _ | .sdTimeoutFire s | .sdTidyReturn s _ => s
+  | _ => 0
+
+def resToken : Ph → String
+  | .cancelled => "c"
+  | .done .retOwn => "own"
+  | .done (.retBool true) => "t"
+  | .done (.retBool false) => "f"
+  | .done (.exc (.byJob k)) => s!"xj{k}"
+  | .done (.exc (.tmo k)) => s!"xt{k}"
+  | _ => "?"
+
+def whyRejectB (c : Cfg) (st : StB) (e : EvB) : String :=
+  let s := evSched e
+  s!"{repr e}: pcB={repr (st.pcB s)} ph={repr (st.a.ph s)} creq={st.a.creq s} carrived={st.carrived s} rx={st.a.rx s} " ++
+  s!"D={doneSet c st.a s} live={liveChildren c st.a s} bc={repr (st.bc s)} hph={repr (st.hph s)} hcreq={st.hcreq s} " ++
+  s!"active={activeHandlers c st s} didSd={st.didSd s} now={st.a.now} dl={st.deadline s} hdl={st.hdeadline s} quiet={quietB c st}" ++
+  (match e with
+   | .grant j | .bodyEnd j _ | .cancelAck j | .hEnd j | .hCancelAck j =>
+     s!" job{j}: ph={repr (st.a.ph j)} creq={st.a.creq j} hph={repr (st.hph j)} hcreq={st.hcreq j} q={st.a.qcount (c.parent j)}"
+   | _ => "")
+
+def replayB (c : Cfg) (evs : List ObsB) (diag : List (Nat × Bool × Bool)) : String := Id.run do
+  let mut st := StB.init
+  let mut i := 0
+  for o in evs do
+    let get := fun k => (getKV o.obs k).bind parseNats
+    match o.ev, get "D" with
+    | .waitReturn s, some D =>
+      if !sameSet D (doneSet c st.a s) then
+        return s!"reject {i} env:A1 wait-return of {s} observed={showNats D} model={showNats (doneSet c st.a s)}"
+    | _, _ => pure ()
+    match stepB c st o.ev with
+    | none => return s!"reject {i} guard {whyRejectB c st o.ev}"
+    | some st' =>
+      let rng := List.range c.n
+      match get "S" with
+      | some S =>
+        let S' := rng.filter fun k => st.a.ph k == .idle && st'.a.ph k == .queued
+        if !sameSet S S' then return s!"reject {i} impl:start event={repr o.ev} observed={showNats S} model={showNats S'}"
+      | none => pure ()
+      match get "K" with
+      | some K =>
+        let K' := rng.filter fun k => !st.a.creq k && st'.a.creq k
+        if !sameSet K K' then return s!"reject {i} impl:cancel event={repr o.ev} observed={showNats K} model={showNats K'}"
+      | none => pure ()
+      match get "H" with
+      | some H =>
+        let H' := rng.filter fun k => st'.hcalls k != st.hcalls k
+        if !sameSet H H' then return s!"reject {i} impl:sd event={repr o.ev} observed={showNats H} model={showNats H'}"
+      | none => pure ()
+      match get "HC" with
+      | some H =>
+        let H' := rng.filter fun k => !st.hcreq k && st'.hcreq k
+        if !sameSet H H' then return s!"reject {i} impl:sdto event={repr o.ev} observed={showNats H} model={showNats H'}"
+      | none => pure ()
+      match getKV o.obs "R" with
+      | some r =>
+        let s := evSched o.ev
+        let s := match o.ev with | .grant j => j | _ => s
+        if resToken (st'.a.ph s) != r then
+          return s!"reject {i} impl:verdict event={repr o.ev} observed={r} model={resToken (st'.a.ph s)}"
+      | none => pure ()
+      match getKV o.obs "V" with
+      | some v =>
+        let s := evSched o.ev
+        let m := match st'.sdValue s with | some true => "t" | some false => "f" | none => "n"
+        if m != v then return s!"reject {i} impl:sdvalue event={repr o.ev} observed={v} model={m}"
+      | none => pure ()
+      if st'.a.dbl then return s!"reject {i} impl:start a task was created twice"
+      st := st'
+    i := i + 1
+  -- diagnosis after the run: failed_time_out() / failed_critical() of every scheduler that ended
+  for (s, ft, fc) in diag do
+    if st.pcB s == .over && (st.failT s != ft || st.failC s != fc) then
+      return s!"reject {i} impl:diag scheduler {s} observed=({ft},{fc}) model=({st.failT s},{st.failC s})"
+  return s!"ok {i}"
+
+def parseDiag (s : String) : Option (List (Nat × Bool × Bool)) :=
+  if s.isEmpty || s = "-" then some [] else
+  (s.splitOn ",").mapM fun e =>
+    match e.splitOn ":" with
+    | [k, a, b] => do pure (← k.toNat?, a = "1", b = "1")
+    | _ => none
+
 def isDynCmd (cmd : String) : Bool := cmd = "replayA" || cmd = "replayB"
 
 def handle (cmd : String) (toks : List String) : String :=
@@ -140,10 +264,14 @@ def handle (cmd : String) (toks : List String) : String :=
     match getKV kv "ev" with
     | none => "bad-request ev"
     | some evs =>
+      let items := (evs.splitOn ";").filter (· ≠ "")
       if cmd = "replayA" then
-        match (evs.splitOn ";").filter (· ≠ "") |>.mapM (fun s => parseEvA (s.replace "_" " ")) with
+        match items.mapM (fun s => parseEvA (s.replace "_" " ")) with
         | none => "bad-request event"
         | some l => replayA c l
-      else AJ.Full.handleB c evs
+      else
+        match items.mapM parseEvB, (getKV kv "diag").bind parseDiag with
+        | some l, some d => replayB c l d
+        | _, _ => "bad-request event"
 
 end AJ.Dyn
